@@ -815,6 +815,9 @@ class Signature:
         bound_args: BoundArgs = {}
         star_args_consumed = False
         star_kwargs_consumed = False
+        # Whether some parameter (**kwargs, ...) takes the keyword arguments that
+        # match no other parameter.
+        extra_keywords_consumed = False
         param_spec_consumed = False
 
         for param in self.parameters.values():
@@ -1021,6 +1024,7 @@ class Signature:
                 bound_args[param.name] = position, Composite(star_args_value)
             elif param.kind is ParameterKind.VAR_KEYWORD:
                 star_kwargs_consumed = True
+                extra_keywords_consumed = True
                 items = {}
                 for key, (
                     definitely_provided,
@@ -1053,6 +1057,7 @@ class Signature:
                 # just take it all
                 star_args_consumed = True
                 star_kwargs_consumed = True
+                extra_keywords_consumed = True
                 param_spec_consumed = True
                 val = AnyValue(AnySource.ellipsis_callable)
                 bound_args[param.name] = UNKNOWN, Composite(val)
@@ -1071,6 +1076,7 @@ class Signature:
                     is actual_args.star_kwargs.param_spec
                 ):
                     star_kwargs_consumed = True
+                    extra_keywords_consumed = True
                     star_args_consumed = True
                     composite = Composite(
                         TypeVarValue(
@@ -1099,6 +1105,7 @@ class Signature:
                     )
                     star_args_consumed = True
                     star_kwargs_consumed = True
+                    extra_keywords_consumed = True
                     val = CallValue(new_actuals)
                     bound_args[param.name] = UNKNOWN, Composite(val)
             else:
@@ -1111,7 +1118,7 @@ class Signature:
                 ctx,
             )
             return None
-        if not star_kwargs_consumed:
+        if not extra_keywords_consumed:
             # keep the order in which the keywords were passed (a set would make the
             # message depend on the hash seed)
             extra_kwargs = [
